@@ -4,7 +4,9 @@ import (
 	"fmt"
 	"math"
 	"reflect"
+	"sort"
 	"strconv"
+	"strings"
 
 	"github.com/ah-naf/borno/ast"
 	"github.com/ah-naf/borno/environment"
@@ -985,6 +987,50 @@ func stringify(value interface{}) string {
 	}
 	if valRune, ok := value.([]rune); ok {
 		return string(valRune)
+	}
+	return formatValue(value, nil)
+}
+
+// containerRef identifies an array or object on the path being printed.
+type containerRef struct {
+	pointer uintptr
+	length  int
+}
+
+// formatValue renders a value the way fmt's %v does, except that an array or
+// object that contains itself is shown as [...] / map[...] where it recurs
+// instead of being followed for ever.
+func formatValue(value interface{}, path []containerRef) string {
+	switch v := value.(type) {
+	case []interface{}:
+		ref := containerRef{reflect.ValueOf(v).Pointer(), len(v)}
+		for _, seen := range path {
+			if seen == ref && len(v) > 0 {
+				return "[...]"
+			}
+		}
+		parts := make([]string, len(v))
+		for idx, element := range v {
+			parts[idx] = formatValue(element, append(path, ref))
+		}
+		return "[" + strings.Join(parts, " ") + "]"
+	case map[string]interface{}:
+		ref := containerRef{reflect.ValueOf(v).Pointer(), -1}
+		for _, seen := range path {
+			if seen == ref {
+				return "map[...]"
+			}
+		}
+		keys := make([]string, 0, len(v))
+		for key := range v {
+			keys = append(keys, key)
+		}
+		sort.Strings(keys)
+		parts := make([]string, len(keys))
+		for idx, key := range keys {
+			parts[idx] = key + ":" + formatValue(v[key], append(path, ref))
+		}
+		return "map[" + strings.Join(parts, " ") + "]"
 	}
 	return fmt.Sprintf("%v", value)
 }
